@@ -7,7 +7,7 @@
    * the auxiliary vector pbar_k of the residual recurrence has norm 1 and is orthogonal to later z's;
    * hence  || b^ - (value K + s I) x_k ||^2 = scale_prev_k^2 : the quantity the code calls scale is exactly the
      residual norm, for every shift, and (C11_scale_nonincreasing) the residual norms never grow.
-   What is still missing for "MINRES converges" is the behaviour AT breakdown / the minimal-residual property. *)
+   The minimal-residual property and the exact-breakdown step are in ProofsMinimal.v. *)
 From mathcomp Require Import all_ssreflect all_algebra.
 From mathcomp Require Import ring.
 Require Import C11.Model C11.ProofsAny C11.ProofsExact C11.ProofsResidual.
@@ -47,33 +47,40 @@ Hypothesis hj : (j < C)%N.
 Variable rhs : cols R.
 Notation iter k := (st_iter k (st_init rhs)).
 
-(* ---- dot products of vectors given as functions of the index ---- *)
-Definition dot (f g : nat -> R) : R := \sum_(i < n) f i * g i.
+(* ---- fdot products of vectors given as functions of the index ---- *)
+Definition fdot (f g : nat -> R) : R := \sum_(i < n) f i * g i.
 
-Lemma dotC f g : dot f g = dot g f.
+Lemma dotC f g : fdot f g = fdot g f.
 Proof. by apply: eq_bigr => i _; rewrite mulrC. Qed.
 
-Lemma dot_extl f f' g : (forall i, (i < n)%N -> f i = f' i) -> dot f g = dot f' g.
+Lemma dot_extl f f' g : (forall i, (i < n)%N -> f i = f' i) -> fdot f g = fdot f' g.
 Proof. by move=> H; apply: eq_bigr => i _; rewrite H. Qed.
 
-Lemma dot_extr f g g' : (forall i, (i < n)%N -> g i = g' i) -> dot f g = dot f g'.
+Lemma dot_extr f g g' : (forall i, (i < n)%N -> g i = g' i) -> fdot f g = fdot f g'.
 Proof. by move=> H; apply: eq_bigr => i _; rewrite H. Qed.
 
 Lemma dot_lin3 (a b c : R) f g h u :
-  dot (fun i => a * f i + b * g i + c * h i) u = a * dot f u + b * dot g u + c * dot h u.
+  fdot (fun i => a * f i + b * g i + c * h i) u = a * fdot f u + b * fdot g u + c * fdot h u.
 Proof.
-rewrite /dot !mulr_sumr -!big_split /=; apply: eq_bigr => i _; ring.
+rewrite /fdot !mulr_sumr -!big_split /=; apply: eq_bigr => i _; ring.
 Qed.
 
-Lemma dot_lin2 (a b : R) f g u : dot (fun i => a * f i + b * g i) u = a * dot f u + b * dot g u.
-Proof. rewrite /dot !mulr_sumr -!big_split /=; apply: eq_bigr => i _; ring. Qed.
+Lemma dot_lin2 (a b : R) f g u : fdot (fun i => a * f i + b * g i) u = a * fdot f u + b * fdot g u.
+Proof. rewrite /fdot !mulr_sumr -!big_split /=; apply: eq_bigr => i _; ring. Qed.
 
-Lemma dot0l g : dot (fun _ => 0) g = 0.
-Proof. by rewrite /dot big1 // => i _; rewrite mul0r. Qed.
-
-Lemma Kv_sym f g : dot (Kv j f) g = dot f (Kv j g).
+Lemma dot_comb2 (a b : R) f g :
+  fdot (fun i => a * f i + b * g i) (fun i => a * f i + b * g i)
+  = a ^+ 2 * fdot f f + 2 * a * b * fdot f g + b ^+ 2 * fdot g g.
 Proof.
-rewrite /dot /ProofsResidual.Kv.
+rewrite /fdot !mulr_sumr -!big_split /=; apply: eq_bigr => i _; ring.
+Qed.
+
+Lemma dot0l g : fdot (fun _ => 0) g = 0.
+Proof. by rewrite /fdot big1 // => i _; rewrite mul0r. Qed.
+
+Lemma Kv_sym f g : fdot (Kv j f) g = fdot f (Kv j g).
+Proof.
+rewrite /fdot /ProofsResidual.Kv.
 rewrite (eq_bigr (fun i : 'I_n => \sum_(l < n) (M j i l * f l * vv value * g i))); last first.
   by move=> i _; rewrite -mulrA mulr_suml; apply: eq_bigr => l _; ring.
 rewrite exchange_big /=; apply: eq_bigr => l _.
@@ -100,13 +107,13 @@ move=> hi; rewrite /Model.lz_w /e_lanczos cg2_ctab // (mmv_Kv value mm_lin) // (
 by rewrite /W /alpha /beta /Z /Zp.
 Qed.
 
-Lemma alpha_dot m : alpha m = dot (Kv j (Z m)) (Z m).
+Lemma alpha_dot m : alpha m = fdot (Kv j (Z m)) (Z m).
 Proof.
 rewrite /alpha (lanczos_alpha n mm value (iter m) hj); apply: eq_bigr => i _.
 by rewrite (mmv_Kv value mm_lin) // (qz_iter Q C n mm value shifts eps m rhs).
 Qed.
 
-Lemma beta_next m : beta m.+1 = clamp_min AR eps (Num.sqrt (dot (W m) (W m))).
+Lemma beta_next m : beta m.+1 = clamp_min AR eps (Num.sqrt (fdot (W m) (W m))).
 Proof.
 rewrite /beta st_iterS (step_bprev Q C n mm pre value shifts eps) /Model.lz_beta /e_sqrt_clamp sget_stab //.
 congr (clamp_min _ _ (Num.sqrt _)).
@@ -128,7 +135,7 @@ Lemma KZ m i : (i < n)%N -> Kv j (Z m) i = beta m.+1 * Z m.+1 i + alpha m * Z m 
 Proof. by move=> hi; rewrite (Z_next m hi) /W; ring. Qed.
 
 (* no breakdown at body m: the clamp is inactive *)
-Definition no_breakdown (m : nat) : Prop := eps <= Num.sqrt (dot (W m) (W m)).
+Definition no_breakdown (m : nat) : Prop := eps <= Num.sqrt (fdot (W m) (W m)).
 
 (* the same condition on the model's own quantities: the argument of clamp_min_ in line 147 is >= eps *)
 Lemma no_breakdown_model m :
@@ -137,51 +144,51 @@ Lemma no_breakdown_model m :
 Proof.
 rewrite /no_breakdown /=.
 have -> : sg (e_sum AR C n (e_mul AR C n (lz_w AR C n mm value (iter m)) (lz_w AR C n mm value (iter m)))) j
-          = dot (W m) (W m).
+          = fdot (W m) (W m).
   rewrite /e_sum sget_stab // sumn_big; apply: eq_bigr => i _.
   by rewrite /e_mul cg2_ctab // w_eq.
 by [].
 Qed.
 
-Lemma beta_sqr m : no_breakdown m -> beta m.+1 ^+ 2 = dot (W m) (W m).
+Lemma beta_sqr m : no_breakdown m -> beta m.+1 ^+ 2 = fdot (W m) (W m).
 Proof.
 move=> nb; rewrite beta_next /clamp_min /= ltNge nb /= sqr_sqrtr //.
 by apply: sumr_ge0 => i _; rewrite -expr2 sqr_ge0.
 Qed.
 
-Lemma Z_unit m : no_breakdown m -> dot (Z m.+1) (Z m.+1) = 1.
+Lemma Z_unit m : no_breakdown m -> fdot (Z m.+1) (Z m.+1) = 1.
 Proof.
 move=> nb.
 have hb := beta_gt0 m.
 have hb0 : beta m.+1 != 0 by rewrite gt_eqF.
 apply: (mulfI (expf_neq0 2 hb0)); rewrite mulr1 [RHS](beta_sqr nb).
-rewrite /dot mulr_sumr; apply: eq_bigr => i _.
+rewrite /fdot mulr_sumr; apply: eq_bigr => i _.
 by rewrite -(Z_next m (ltn_ord i)); ring.
 Qed.
 
 (* the first vector is a unit vector iff the (normalised) rhs column is not zero *)
-Hypothesis rhs_nz : 0 < dot (cg rhs j) (cg rhs j).
+Hypothesis rhs_nz : 0 < fdot (cg rhs j) (cg rhs j).
 
-Lemma Z0_unit : dot (Z 0) (Z 0) = 1.
+Lemma Z0_unit : fdot (Z 0) (Z 0) = 1.
 Proof.
-rewrite /dot /Z /= /Model.st_init /=.
+rewrite /fdot /Z /= /Model.st_init /=.
 set b0 := stab C _.
-have hb : sg b0 j = Num.sqrt (dot (cg rhs j) (cg rhs j)).
+have hb : sg b0 j = Num.sqrt (fdot (cg rhs j) (cg rhs j)).
   rewrite /b0 sget_stab // /e_sum sget_stab // sumn_big; congr Num.sqrt.
   by apply: eq_bigr => i _; rewrite /e_mul cg2_ctab.
-have hb2 : sg b0 j ^+ 2 = dot (cg rhs j) (cg rhs j) by rewrite hb sqr_sqrtr // ltW.
+have hb2 : sg b0 j ^+ 2 = fdot (cg rhs j) (cg rhs j) by rewrite hb sqr_sqrtr // ltW.
 have hb0 : sg b0 j != 0 by rewrite hb gt_eqF // sqrtr_gt0.
-apply: (mulfI (expf_neq0 2 hb0)); rewrite mulr1 [RHS]hb2 /dot mulr_sumr; apply: eq_bigr => i _.
+apply: (mulfI (expf_neq0 2 hb0)); rewrite mulr1 [RHS]hb2 /fdot mulr_sumr; apply: eq_bigr => i _.
 rewrite /e_divc cg2_ctab //=.
 by field.
 Qed.
 
 (* ---- orthonormality, by strong induction ---- *)
 Definition ortho (k : nat) : Prop :=
-  forall a b, (a <= k)%N -> (b <= k)%N -> dot (Z a) (Z b) = (a == b)%:R.
+  forall a b, (a <= k)%N -> (b <= k)%N -> fdot (Z a) (Z b) = (a == b)%:R.
 
 Lemma dot_Zp k a : ortho k -> (a <= k)%N -> forall b, (b <= k)%N ->
-  dot (Zp a) (Z b) = (if a is a'.+1 then (a' == b)%:R else 0).
+  fdot (Zp a) (Z b) = (if a is a'.+1 then (a' == b)%:R else 0).
 Proof.
 move=> H ha b hb; case: a ha => [|a'] ha.
   by rewrite (dot_extl (f' := fun _ => 0)) ?dot0l //; exact: Zp0.
@@ -194,12 +201,12 @@ move=> H nb.
 have hbk := beta_gt0 k.
 have hb0 : beta k.+1 != 0 by rewrite gt_eqF.
 (* the new vector against the old ones *)
-have new b : (b <= k)%N -> dot (Z k.+1) (Z b) = 0.
+have new b : (b <= k)%N -> fdot (Z k.+1) (Z b) = 0.
   move=> hb; apply: (mulfI hb0); rewrite mulr0.
-  have -> : beta k.+1 * dot (Z k.+1) (Z b) = dot (W k) (Z b).
-    rewrite /dot mulr_sumr; apply: eq_bigr => i _.
+  have -> : beta k.+1 * fdot (Z k.+1) (Z b) = fdot (W k) (Z b).
+    rewrite /fdot mulr_sumr; apply: eq_bigr => i _.
     by rewrite mulrA (Z_next k (ltn_ord i)).
-  have -> : dot (W k) (Z b) = dot (Kv j (Z k)) (Z b) - alpha k * dot (Z k) (Z b) - beta k * dot (Zp k) (Z b).
+  have -> : fdot (W k) (Z b) = fdot (Kv j (Z k)) (Z b) - alpha k * fdot (Z k) (Z b) - beta k * fdot (Zp k) (Z b).
     rewrite (dot_extl (f' := fun i => 1 * Kv j (Z k) i + (- alpha k) * Z k i + (- beta k) * Zp k i)); last first.
       by move=> i _; rewrite /W; ring.
     by rewrite dot_lin3; ring.
@@ -212,7 +219,7 @@ have new b : (b <= k)%N -> dot (Z k.+1) (Z b) = 0.
     by rewrite /= mulr1 mulr0 subrr subr0.
   (* b < k : use symmetry and the recurrence for K z_b *)
   rewrite (gtn_eqF hlt) /= mulr0 subr0 Kv_sym.
-  have -> : dot (Z k) (Kv j (Z b)) = beta b.+1 * dot (Z b.+1) (Z k) + alpha b * dot (Z b) (Z k) + beta b * dot (Zp b) (Z k).
+  have -> : fdot (Z k) (Kv j (Z b)) = beta b.+1 * fdot (Z b.+1) (Z k) + alpha b * fdot (Z b) (Z k) + beta b * fdot (Zp b) (Z k).
     rewrite dotC (dot_extl (f' := fun i => beta b.+1 * Z b.+1 i + alpha b * Z b i + beta b * Zp b i)); last first.
       by move=> i hi; rewrite (KZ b hi).
     by rewrite dot_lin3.
@@ -222,11 +229,11 @@ have new b : (b <= k)%N -> dot (Z k.+1) (Z b) = 0.
   rewrite mulr0 addr0.
   case: (k) hlt => [|k'] // hlt.
   rewrite eqSS [k' == b]eq_sym.
-  case E: (b == k'); last by rewrite /= !mulr0 subrr.
-  by rewrite (eqP E) /= !mulr1 subrr.
-move=> a b; rewrite !leq_eqVlt => /orP[/eqP->|ha] /orP[/eqP->|hb].
+  have [E|E] := eqVneq b k'; first by rewrite E subrr.
+  by move: (beta b.+1) (beta k'.+1) => x y; rewrite !mulr0 subrr.
+move=> a b; rewrite (leq_eqVlt a) (leq_eqVlt b) => /orP[/eqP->|ha] /orP[/eqP->|hb].
 - by rewrite eqxx Z_unit.
-- by rewrite new // ltn_eqF // (gtn_eqF hb).
+- by rewrite new // (gtn_eqF hb).
 - by rewrite dotC new // (ltn_eqF ha).
 - exact: H.
 Qed.
@@ -249,11 +256,11 @@ Notation gsin := (@g_sin R C n mm pre value shifts eps).
 Notation gcos := (@g_cos R C n mm pre value shifts eps).
 
 Lemma pbar_props k : ortho k ->
-  dot (pbar k) (pbar k) = 1 /\ forall m, (k < m)%N -> ortho m -> dot (pbar k) (Z m) = 0.
+  fdot (pbar k) (pbar k) = 1 /\ forall m, (k < m)%N -> ortho m -> fdot (pbar k) (Z m) = 0.
 Proof.
 elim: k => [|k IH] H.
-  split; first by rewrite [dot _ _]Z0_unit.
-  by move=> m hm Hm; rewrite [dot _ _](Hm 0%N m (leq0n m) (leqnn m)) (ltn_eqF hm).
+  split; first by rewrite [fdot _ _]Z0_unit.
+  by move=> m hm Hm; rewrite [fdot _ _](Hm 0%N m (leq0n m) (leqnn m)) (ltn_eqF hm).
 have Hk : ortho k by move=> a b ha hb; apply: H; exact: leqW.
 have [n1 o1] := IH Hk.
 have hcs : gcos (iter k) q j ^+ 2 + gsin (iter k) q j ^+ 2 = 1 by apply: g_cos_sin.
@@ -261,14 +268,13 @@ have hexp i : pbar k.+1 i = (- gsin (iter k) q j) * pbar k i + gcos (iter k) q j
   by rewrite /= /pb_next /Z st_iterS; ring.
 split.
 - rewrite (dot_extl (f' := fun i => (- gsin (iter k) q j) * pbar k i + gcos (iter k) q j * Z k.+1 i)); last by move=> i _; exact: hexp.
-  rewrite dot_lin2 !(dot_extr (g' := fun i => (- gsin (iter k) q j) * pbar k i + gcos (iter k) q j * Z k.+1 i)); try by move=> i _; exact: hexp.
-  rewrite ![dot _ (fun i => _ + _)]dotC !dot_lin2 n1 (o1 k.+1 (ltnSn k) H) [dot (Z k.+1) (pbar k)]dotC (o1 k.+1 (ltnSn k) H).
-  rewrite (H k.+1 k.+1 (leqnn _) (leqnn _)) eqxx.
-  move: (gsin _ _ _) (gcos _ _ _) hcs => S' C' hcs.
-  by rewrite -hcs; ring.
+  rewrite (dot_extr _ (g' := fun i => (- gsin (iter k) q j) * pbar k i + gcos (iter k) q j * Z k.+1 i)); last by move=> i _; exact: hexp.
+  rewrite dot_comb2 n1 (o1 k.+1 (ltnSn k) H) (H k.+1 k.+1 (leqnn _) (leqnn _)) eqxx.
+  by rewrite mulr1n mulr0 addr0 !mulr1 sqrrN addrC.
 - move=> m hm Hm.
   rewrite (dot_extl (f' := fun i => (- gsin (iter k) q j) * pbar k i + gcos (iter k) q j * Z k.+1 i)); last by move=> i _; exact: hexp.
-  rewrite dot_lin2 (o1 m (ltnW hm) Hm) (Hm k.+1 m (ltnW hm) (leqnn m)) (ltn_eqF hm); ring.
+  rewrite dot_lin2 (o1 m (ltnW hm) Hm) (Hm k.+1 m (ltnW hm) (leqnn m)) (ltn_eqF hm).
+  by rewrite !mulr0 addr0.
 Qed.
 
 Theorem residual_norm_is_scale k :
@@ -280,7 +286,7 @@ move=> nb x.
 have [n1 _] := pbar_props (lanczos_orthonormal nb).
 rewrite (eq_bigr (fun i : 'I_n => qg (scp (iter k)) q j ^+ 2 * (pbar k i * pbar k i))); last first.
   move=> i _; rewrite (minres_true_residual value shifts eps_pos mm_lin hq hj rhs k (ltn_ord i)); ring.
-by rewrite -mulr_sumr -/(dot (pbar k) (pbar k)) n1 mulr1.
+by rewrite -mulr_sumr -/(fdot (pbar k) (pbar k)) n1 mulr1.
 Qed.
 
 End Shift.
